@@ -24,6 +24,7 @@ macro_rules! proof {
         #[kani::stub(rust_decimal::Decimal::checked_mul, $crate::env::decimal::checked_mul)]
         #[kani::stub(rust_decimal::Decimal::checked_add, $crate::env::decimal::checked_add)]
         #[kani::stub(rust_decimal::Decimal::checked_sub, $crate::env::decimal::checked_sub)]
+        #[kani::stub(<rust_decimal::Decimal as rust_decimal::MathematicalOps>::sqrt, $crate::env::decimal::sqrt)]
         #[kani::stub(chrono::Utc::now, $crate::env::misc::utc_now)]
         #[kani::stub($crate::env::misc::is_native, $crate::env::misc::is_native_false)]
         $(#[$m])*
@@ -32,10 +33,18 @@ macro_rules! proof {
 }
 
 #[cfg(kani)]
-pub mod r#gen;
+pub mod gens;
 
 #[cfg(kani)]
 mod c06_binance_l2;
+#[cfg(kani)]
+mod c02_position;
+#[cfg(kani)]
+mod c17_dataset;
+#[cfg(kani)]
+mod c18_drawdown;
+#[cfg(kani)]
+mod c16_tearsheet;
 
 /// Concrete-playback tests written by the driver (`/verif/check`) when a harness fails; runs the
 /// harness natively, without stubs, against the real crates.
